@@ -32,3 +32,10 @@ Theorem C13_explicit_default_categories : forall c,
   mem c (valid (Some all_cats) (Some [])) = mem c (valid None None).
 Proof. exact explicit_all_categories_mem. Qed.
 Print Assumptions C13_explicit_default_categories.
+
+(* obligation regenerated from the source on every run: the code this property runs through keeps exactly the state the
+   model knows (no new attribute, class-level table, module-level binding or caching decorator), see proofs/State*Proofs.v *)
+From KV Require Import StateGen StateBase StateExportProofs StateTokensProofs.
+Theorem C13_state_as_modelled : state_export = modelled_state_export /\ state_tokens = modelled_state_tokens.
+Proof. exact (conj state_export_as_modelled state_tokens_as_modelled). Qed.
+Print Assumptions C13_state_as_modelled.
